@@ -228,7 +228,7 @@ func c09Residue(ctx *core.Ctx, idx int) core.Result {
 		o.Faults = 1
 	}
 	g := gen.New(r, o)
-	stmts := g.Session(r.Range(2, 7))
+	stmts := append(g.Helpers(), g.Session(r.Range(2, 7))...)
 	opts := diffOpts{DoOut: idx%2 == 0, Stress: "plain", Residue: true}
 	d := runDiff(stmts, opts)
 	res := diffCase("C09", stmts, opts, d, nil)
